@@ -5,6 +5,7 @@ EXTENDS Integers, Sequences, FiniteSets, TLC, Json, IOUtils, TLCExt
 Traces == JsonDeserialize(IOEnv.TRACE_FILE)
 TableStr == <<10, 32, 48,49,50,51,52,53,54,55,56,57, 97,98,99,100,101,102,103,104,105,106,107,108,109,110,
               111,112,113,114,115,116,117,118,119,120,121,122, 33,35,37,40,41,123,125,91,93,60,62,43,61,47,42,58,59,46,44,126,95>>
+\* compatibility suffixes PICO-8 appends after the code (beyond the declared length)
 VARIABLES tid, p, out, verdict
 vars == <<tid, p, out, verdict>>
 T == Traces[tid]
@@ -26,14 +27,16 @@ Step ==
      ELSE IF A[7] # 0 \/ A[8] # 0 THEN Stop("header")
      ELSE IF DeclLen # Len(Text) THEN Stop("length-field")
      ELSE IF Len(out) >= DeclLen \/ p > Len(A) THEN
-          (IF SubSeq(out, 1, IF Len(out) < DeclLen THEN Len(out) ELSE DeclLen) = Text THEN Stop("ok") ELSE Stop("text-mismatch"))
+          (IF SubSeq(out, 1, IF Len(out) < DeclLen THEN Len(out) ELSE DeclLen) # Text THEN Stop("text-mismatch")
+           ELSE IF T.implDecoded # << 0 - 1 >> /\ T.implDecoded # Text THEN Stop("impl-decode-mismatch")
+           ELSE Stop("ok"))
      ELSE LET b == A[p] IN
        IF b = 0 THEN (IF p + 1 > Len(A) THEN Stop("truncated") ELSE out' = Append(out, A[p+1]) /\ p' = p + 2 /\ UNCHANGED <<tid, verdict>>)
        ELSE IF b <= 59 THEN out' = Append(out, TableStr[b]) /\ p' = p + 1 /\ UNCHANGED <<tid, verdict>>
        ELSE IF p + 1 > Len(A) THEN Stop("truncated")
        ELSE LET off == (b - 60) * 16 + (A[p+1] % 16)  len == (A[p+1] \div 16) + 2 IN
          IF off < 1 \/ off > Len(out) THEN Stop("bad-offset")
-         ELSE IF len < 3 THEN Stop("bad-length")
+         ELSE IF len < 3 \/ len > 17 THEN Stop("bad-length")
          ELSE out' = CopyBytes(out, off, len) /\ p' = p + 2 /\ UNCHANGED <<tid, verdict>>
 Spec == Init /\ [][Step]_vars
 Report == (verdict # "run") => PrintT(<<"VERDICT", tid, verdict, p, Len(out)>>)
